@@ -6,10 +6,13 @@ from pyvc import spec as SP
 from pyvc.sym import Sym
 
 META = {
-    "explanation": "balance_stoichiometry delegates the mathematics to sympy (linsolve, nsimplify, gcd, Wild.match) and CBC; what is proved is everything chempy itself is responsible for: (head slice, up to the linsolve call) the signed composition matrix A[i][j] = composition_j[key_i] * (-1 for reactants) over the sorted keys incl. charge and the reactants-then-products column order, and the presence pre-check raising ValueError exactly when a key occurs on one side only without mixed signs there; (tail slice, the statements after the last assignment to `sol`, for ANY vector sol and matrix A that the external solvers may have produced) every normal return has all coefficients non-zero, none negative, and - in the two numeric modes - numeric and satisfying A*sol == 0, with exactly the given species as keys and value sol[index(key)] (int() of it in the 'smallest integers' mode); the duplicate-species dispatch. Positivity, coprimality, minimality and refusal of infeasible placements depend on sympy/CBC output: decided only by the bounded exhaustive stand-in.",
+    "explanation": "balance_stoichiometry delegates the mathematics to sympy (linsolve, nsimplify, gcd, Wild.match) and CBC; what is proved is everything chempy itself is responsible for: (head slice, up to the linsolve call) the signed composition matrix A[i][j] = composition_j[key_i] * (-1 for reactants), one row per composition key incl. charge (the order of the rows is free) and the reactants-then-products column order, and the presence pre-check raising ValueError exactly when a key occurs on one side only without mixed signs there; (tail slice, the statements after the last assignment to `sol`, for ANY vector sol and matrix A that the external solvers may have produced) every normal return has all coefficients non-zero, none negative, and - in the two numeric modes - numeric and satisfying A*sol == 0, with exactly the given species as keys (a set per side) and value sol[index(key)] (possibly int() of it, in the 'smallest integers' mode only); the duplicate-species dispatch. Positivity, coprimality, minimality and refusal of infeasible placements depend on sympy/CBC output: they are stated generically (no expected coefficients) on data only - 30 small signed matrices incl. charge-type rows and fractional entries against brute force, exact rank and an LP (numeric_clauses_on_small_matrices) - and decided otherwise by the bounded exhaustive stand-in.",
     "trusted_base": ["sympy Matrix * Matrix is the matrix product; x == 0, 0 in M, free_symbols, is_negative, int(x) mean what they say (5.4)", "nsimplify(x, rational=True) preserves the value of x", "the slices are cut mechanically from the real AST on every run (what is dropped is stated in the evidence)"],
     "not_decided": ["minimal coefficient sum, joint coprimality, unique-ray minimal solution, symbolic (free parameter) mode identities: outputs of sympy/CBC -> bounded stand-in only"],
-    "assumptions": ["species layouts fixed per harness; composition values and the solver's output vector are symbolic"],
+    "assumptions": ["species layouts fixed per harness; composition values and the solver's output vector are symbolic",
+                    "reading of 'the set of keys equals the species given' when a species is given on BOTH sides (allow_duplicates): the answer may keep it on one side, on both or on neither (chempy prefers to drop it from both, e.g. {H2,O2,H2O} -> {H2O,H2O2} gives H2 + O2 -> H2O2 although 3 H2 + 2 O2 -> 2 H2O + H2O2 uses every species); every species given on one side only must be a key of that side. Same reading as bounded/C02.py",
+                    "reading of 'no assignment of positive coefficients' in the parametric (default) mode: the free parameters range over the positive reals, although chempy declares its symbols integer",
+                    "which exception class a refusal of the duplicate dispatch carries (ValueError / NotImplementedError), the order of the keys in the returned mappings, int vs sympy Integer, and whether the default / False mode refuses or validly answers a placement with several rays are not part of the statement and not pinned"],
 }
 CH = "chempy.chemistry"
 
@@ -69,7 +72,12 @@ def _head(name):
             A = out.exc.A
             v.prove("precheck_passes_only_if_every_key_on_both_sides_or_mixed", SP.neg(refuse))
             v.prove("matrix_shape_rows_keys_columns_species", len(A.rows) == len(KEYS) and all(len(r) == len(species) for r in A.rows))
-            v.prove("signed_composition_matrix", SP.conj([A.rows[i][j] == comp[s][k] * (-1 if s in reactants else 1) for i, k in enumerate(KEYS) for j, s in enumerate(species)]))
+            # the order of the rows (one balance equation each) is not part of the property, A x = 0 is the same system under any
+            # permutation of them; the order of the columns is: the tail reads sol[subst_keys.index(k)].  So: the rows of A are,
+            # in SOME order, exactly the rows row(k) = [composition_s[k] * sign(s) for s in reactants + products], one per key.
+            import itertools
+            row_is = lambda i, k: SP.conj([A.rows[i][j] == comp[s][k] * (-1 if s in reactants else 1) for j, s in enumerate(species)])
+            v.prove("signed_composition_matrix", len(A.rows) == len(KEYS) and SP.disj([SP.conj([row_is(i, k) for i, k in enumerate(perm)]) for perm in itertools.permutations(KEYS)]))
         else:
             v.prove("refusal_is_ValueError_and_justified", SP.conj([out.raised(ValueError), refuse]), detail=repr(out.exc))
     return _
@@ -141,10 +149,22 @@ def _tail(name):
             v.prove("refusal_is_always_allowed", True)
             return
         r, p = res
-        v.prove("keys_are_exactly_the_given_species", list(r.keys()) == list(reactants) and list(p.keys()) == list(products))
-        vals = list(r.values()) + list(p.values())
-        v.prove("values_are_the_solver_entries_in_species_order", SP.conj([(x.of is s if isinstance(x, _IntOf) else x is s) for x, s in zip(vals, sol)]))
-        v.prove("smallest_integer_mode_returns_python_ints", all(isinstance(x, _IntOf) for x in vals) if mode is None else all(isinstance(x, SNum) for x in vals))
+        # 'the set of keys equals the species given': a set per side, no order is demanded of the two mappings
+        keys_ok = len(r) == len(reactants) and len(p) == len(products) and set(r.keys()) == set(reactants) and set(p.keys()) == set(products)
+        v.prove("keys_are_exactly_the_given_species", keys_ok)
+        if not keys_ok:
+            return
+        # looked up by key (not by position): the coefficient of species k is the solver's entry of k's column
+        vals = [r[k] for k in reactants] + [p[k] for k in products]
+
+        def is_entry(x, s):   # x is the entry s itself or int(s); for the symbolic stand-ins 'the same value' is: the same object, or provably equal reals
+            y = x.of if isinstance(x, _IntOf) else x
+            return True if y is s else (SP.conj([y.val == s.val, SP.iff(y.symbolic, s.symbolic)]) if isinstance(y, SNum) else False)
+        v.prove("values_are_the_solver_entries_in_species_order", SP.conj([is_entry(x, s) for x, s in zip(vals, sol)]))
+        # the balance and sign checks above the return were made on sol: what is returned may differ from it by an int() only where the
+        # entries are integers by construction (mode None, Integer(...) of the ILP values); an int() in the other modes could truncate
+        # a checked rational to an unchecked integer.  (Whether mode None hands out int or sympy Integer is not part of the property.)
+        v.prove("smallest_integer_mode_returns_python_ints", all(isinstance(x, (_IntOf, SNum)) for x in vals) if mode is None else all(isinstance(x, SNum) for x in vals))
         v.prove("no_zero_coefficient", SP.conj([SP.neg(SP.conj([SP.neg(s.symbolic), s.val == 0])) for s in sol]))
         v.prove("no_negative_coefficient", SP.conj([SP.neg(SP.conj([SP.neg(s.symbolic), s.val < 0])) for s in sol]))
         if not mode:   # the two numeric modes
@@ -172,54 +192,157 @@ for _n in LAY:
     _tail(_n)
 
 
+def _numeric_answer_defects(res, reactants, products, comp, duplicates_may_vanish=False):
+    """the numeric clauses of the property for ONE returned value, stated generically (no expected coefficients): a pair of mappings; the set of
+    keys equals the species given, side by side; every coefficient a positive integer (int or anything that equals its int()); jointly coprime;
+    every composition key (element / charge) sums to the same total on both sides, exactly (fractions).  `comp` holds hand-written compositions
+    {species: {key: amount}}.  With duplicates_may_vanish a species given on BOTH sides may be kept on one side, on both, or on neither (see META,
+    'reading'), every other species must be there.  Returns the list of violated clauses (empty: a valid answer)."""
+    import math
+    from fractions import Fraction
+    try:
+        r, p = res
+        r, p = dict(r), dict(p)
+    except Exception:
+        return ["not a pair of mappings: %r" % (res,)]
+    out = []
+    both = set(reactants) & set(products) if duplicates_may_vanish else set()
+    for side, got, given in (("reactants", r, set(reactants)), ("products", p, set(products))):
+        if not (given - both <= set(got) <= given):
+            out.append("keys of %s %s, given %s" % (side, sorted(got), sorted(given)))
+    if not r or not p:
+        out.append("an empty side")
+    vals = list(r.values()) + list(p.values())
+    ints = []
+    for x in vals:
+        try:
+            ok = not isinstance(x, bool) and int(x) == x and int(x) >= 1
+        except Exception:
+            ok = False
+        if not ok:
+            out.append("coefficient %r is not a positive integer" % (x,))
+        else:
+            ints.append(int(x))
+    if out:
+        return out
+    if math.gcd(*ints) != 1:
+        out.append("coefficients %s have the common factor %d" % (ints, math.gcd(*ints)))
+    tot = {}
+    for got, sign in ((r, -1), (p, 1)):
+        for k, x in got.items():
+            for el, n_el in comp[k].items():
+                tot[el] = tot.get(el, 0) + sign * int(x) * (n_el if isinstance(n_el, (int, Fraction)) else Fraction(repr(float(n_el))))
+    out.extend("key %r not balanced (products - reactants = %s)" % (el, t) for el, t in tot.items() if t != 0)
+    return out
+
+
 @harness("C02", "duplicates_dispatch", functions=[CH + ":balance_stoichiometry"], kind="data")
 def _(v):
+    """'with and without duplicate species allowed': a species given on both sides.  The statement names one exception (ValueError) for 'no answer';
+    which exception class a refusal of the duplicate machinery carries (ValueError, NotImplementedError) is not part of it, and where a valid
+    answer exists the statement does not demand a refusal: so 'refused, or an answer that satisfies every numeric clause'."""
     from chempy.chemistry import balance_stoichiometry as bs
+    H2O, O2, H2, H2O2, C_, CO, CO2 = {1: 2, 8: 1}, {8: 2}, {1: 2}, {1: 2, 8: 2}, {6: 1}, {6: 1, 8: 1}, {6: 1, 8: 2}   # by hand, not from the parser
+    comp = {"H2O": H2O, "O2": O2, "H2": H2, "H2O2": H2O2, "C": C_, "CO": CO, "CO2": CO2}
+
     def outcome(*a, **k):
         try:
             return bs(*a, **k)
         except Exception as e:
             return type(e)
+
+    def refused_or_valid(res, reac, prod):
+        if isinstance(res, type):
+            return res in (ValueError, NotImplementedError), res.__name__
+        d = _numeric_answer_defects(res, reac, prod, comp, duplicates_may_vanish=True)
+        return not d, "%r: %s" % (res, "; ".join(d))
+    # H2O + O2 -> H2O + H2 has no balancing with H2 and O2 on these sides (H: 2a = 2c + 2d, O: a + 2b = c  =>  d = -2b), whichever way H2O is
+    # kept or dropped: a refusal is the only right outcome, with or without the flag
     v.prove("both_sides_refused_by_default", outcome({"H2O", "O2"}, {"H2O", "H2"}) is ValueError)
-    v.prove("allow_duplicates_needs_mode_None", outcome({"H2O", "O2"}, {"H2O", "H2"}, allow_duplicates=True) is NotImplementedError)
-    v.prove("identical_sides_refused", outcome({"H2O"}, {"H2O"}, allow_duplicates=True, underdetermined=None) is ValueError)
+    res = outcome({"H2O", "O2"}, {"H2O", "H2"}, allow_duplicates=True)
+    v.prove("allow_duplicates_needs_mode_None", isinstance(res, type) and res in (ValueError, NotImplementedError), repr(res))
+    # H2O -> H2O: 1 -> 1 is a positive balancing, so an answer ({'H2O': 1}, {'H2O': 1}) would satisfy the statement as well as a refusal does
+    res = outcome({"H2O"}, {"H2O"}, allow_duplicates=True, underdetermined=None)
+    v.prove("identical_sides_refused", *refused_or_valid(res, {"H2O"}, {"H2O"}))
     r = outcome({"H2O2", "H2O"}, {"H2O", "O2"}, allow_duplicates=True, underdetermined=None)
     v.prove("duplicate_dropped_when_possible", r == ({"H2O2": 2}, {"O2": 1, "H2O": 2}) or r == (OrderedDict([("H2O2", 2)]), OrderedDict([("H2O", 2), ("O2", 1)])), repr(r))
+    # reading of 'the set of keys equals the species given' for a species given on both sides (recorded in META): the answer may keep it on one
+    # side, on both, or on neither; every species given on one side only is there; and the numeric clauses hold.  Each of these placements has
+    # a positive balancing with the duplicate on one side or on neither (by hand: H2 + O2 -> H2O2 / 3 H2 + 2 O2 -> 2 H2O + H2O2;
+    # 2 CO -> C + CO2; 2 CO + O2 -> 2 CO2), so an answer is due in the smallest-integers mode.
+    for label, reac, prod in (("water_peroxide", {"H2", "O2", "H2O"}, {"H2O", "H2O2"}), ("docstring_C_CO", {"C", "CO"}, {"C", "CO", "CO2"}), ("two_duplicates", {"C", "CO", "O2"}, {"C", "CO", "CO2"})):
+        res = outcome(reac, prod, allow_duplicates=True, underdetermined=None)
+        if isinstance(res, type):
+            v.prove("duplicates_answer_is_valid." + label, False, "refused (%s) although a positive balancing exists" % res.__name__)
+        else:
+            d = _numeric_answer_defects(res, reac, prod, comp, duplicates_may_vanish=True)
+            v.prove("duplicates_answer_is_valid." + label, not d, "%r: %s" % (res, "; ".join(d)))
 
 
 @harness("C02", "fixed_reactions", functions=[CH + ":balance_stoichiometry", CH + ":_solve_balancing_ilp_pulp"], kind="data")
 def _(v):
     from chempy.chemistry import balance_stoichiometry as bs
+    def answer(*a, **k):   # the code under test must not take the harness down: an exception becomes a value that equals no expected answer
+        try:
+            r, p = bs(*a, **k)
+            return dict(r), dict(p)
+        except Exception as e:
+            return repr(e)
     ok = []
     for mode in (True, False, None):
-        r, p = bs({"NH4ClO4", "Al"}, {"Al2O3", "HCl", "H2O", "N2"}, underdetermined=mode)
-        ok.append((dict(r), dict(p)) == ({"NH4ClO4": 6, "Al": 10}, {"Al2O3": 5, "HCl": 6, "H2O": 9, "N2": 3}))
-    v.prove("unique_ray_minimal_solution_in_all_modes", all(ok))
-    r, p = bs({"C", "O2"}, {"CO", "CO2"}, underdetermined=None)
-    v.prove("smallest_integers_mode", (dict(r), dict(p)) == ({"C": 3, "O2": 2}, {"CO": 2, "CO2": 1}))
+        ok.append(answer({"NH4ClO4", "Al"}, {"Al2O3", "HCl", "H2O", "N2"}, underdetermined=mode))
+    v.prove("unique_ray_minimal_solution_in_all_modes", all(x == ({"NH4ClO4": 6, "Al": 10}, {"Al2O3": 5, "HCl": 6, "H2O": 9, "N2": 3}) for x in ok), repr(ok))
+    res = answer({"C", "O2"}, {"CO", "CO2"}, underdetermined=None)
+    v.prove("smallest_integers_mode", res == ({"C": 3, "O2": 2}, {"CO": 2, "CO2": 1}), repr(res))
+    ok = []
     for mode in (True, False, None):
         try:
             bs({"C", "CO"}, {"CO2"}, underdetermined=mode); got = False
         except ValueError:
             got = True
+        except Exception as e:
+            got = repr(e)
         ok.append(got)
-    v.prove("wrong_side_species_refused_in_all_modes", all(ok[3:]))
+    v.prove("wrong_side_species_refused_in_all_modes", all(x is True for x in ok), repr(ok))
+    # mode False on a placement with more than one ray (C + O2 -> CO + CO2): the statement demands nothing but 'no wrong answer'; the documented
+    # behaviour is a ValueError, an answer that satisfies every numeric clause (e.g. 3, 2 -> 2, 1) would be as good
     try:
-        bs({"C", "O2"}, {"CO", "CO2"}, underdetermined=False); got = False
+        res = bs({"C", "O2"}, {"CO", "CO2"}, underdetermined=False)
+        d = _numeric_answer_defects(res, {"C", "O2"}, {"CO", "CO2"}, {"C": {6: 1}, "O2": {8: 2}, "CO": {6: 1, 8: 1}, "CO2": {6: 1, 8: 2}})
+        got, det = not d, "%r: %s" % (res, "; ".join(d))
     except ValueError:
-        got = True
-    v.prove("underdetermined_refused_when_disallowed", got)
-    # compositions with four significant decimals must be balanced exactly (no rationalisation tolerance)
+        got, det = True, "refused"
+    except Exception as e:
+        got, det = False, repr(e)
+    v.prove("underdetermined_refused_when_disallowed", got, det)
+    # compositions with four significant decimals must be balanced exactly (no rationalisation tolerance).  6 species, 5 elements, a single ray;
+    # by hand: a X + b O2 -> c CaO + d FeO + e MgO + f CO2 with X = Ca2.832 Fe0.6285 Mg5.395 C6 O18:  c = 2.832 a, d = 0.6285 a = 1257 a / 2000,
+    # e = 5.395 a, f = 6 a, O: 18 a + 2 b = c + d + e + 2 f = 20.8555 a  =>  b = 1.42775 a = 5711 a / 4000.  gcd(1257, 2000) = 1 and
+    # gcd(5711, 4000) = 1, so the smallest positive integer solution is a = 4000 (and it is coprime, 5711 being odd and not a multiple of 5):
+    # 4000 X + 5711 O2 -> 11328 CaO + 2514 FeO + 21580 MgO + 24000 CO2.  That unique minimal solution is due in every mode (the residual
+    # alone would also pass for a multiple, a negative or a non-coprime vector, and the default mode has no residual guard of its own).
+    # Stated for the default mode and mode False; NOT run in the smallest-integers mode: on an implementation that perturbs these rows
+    # slightly (rationalisation with a tolerance: coefficients of 6-7 digits) CBC does not terminate, and a checker that hangs reports
+    # nothing.  Decimals on the path nsimplify -> integer row -> CBC are covered by eight_decimal_compositions_balanced_as_given and by the
+    # decimal / fractional matrices of numeric_clauses_on_small_matrices, whose coefficients stay small.
     import fractions
     from chempy.chemistry import Substance
     subs = {k: Substance.from_formula(k) for k in ("Ca2.832Fe0.6285Mg5.395(CO3)6", "O2", "CaO", "FeO", "MgO", "CO2")}
-    r, p = bs({"Ca2.832Fe0.6285Mg5.395(CO3)6", "O2"}, {"CaO", "FeO", "MgO", "CO2"}, substances=subs)
-    coef = {**{k: -fractions.Fraction(int(x)) for k, x in r.items()}, **{k: fractions.Fraction(int(x)) for k, x in p.items()}}
-    resid = {}
-    for k, c in coef.items():
-        for el, n in subs[k].composition.items():
-            resid[el] = resid.get(el, 0) + c * fractions.Fraction(repr(float(n)))
-    v.prove("four_decimal_compositions_balanced_exactly", all(x == 0 for x in resid.values()), "residuals %s" % {k: str(x) for k, x in resid.items() if x})
+    want4 = ({"Ca2.832Fe0.6285Mg5.395(CO3)6": 4000, "O2": 5711}, {"CaO": 11328, "FeO": 2514, "MgO": 21580, "CO2": 24000})
+    bad4 = []
+    for mode in (True, False):
+        try:
+            r, p = bs({"Ca2.832Fe0.6285Mg5.395(CO3)6", "O2"}, {"CaO", "FeO", "MgO", "CO2"}, substances=subs, underdetermined=mode)
+            coef = {**{k: -fractions.Fraction(int(x)) for k, x in r.items()}, **{k: fractions.Fraction(int(x)) for k, x in p.items()}}
+            resid = {}
+            for k, c in coef.items():
+                for el, n in subs[k].composition.items():
+                    resid[el] = resid.get(el, 0) + c * fractions.Fraction(repr(float(n)))
+            if (dict(r), dict(p)) != want4 or any(x != 0 for x in resid.values()):
+                bad4.append("mode %s: %s -> %s, residuals %s" % (mode, dict(r), dict(p), {k: str(x) for k, x in resid.items() if x}))
+        except Exception as e:
+            bad4.append("mode %s: %r" % (mode, e))
+    v.prove("four_decimal_compositions_balanced_exactly", not bad4, "; ".join(bad4))
     # more than ten species in the 'smallest integers' mode (solver variable order vs matrix columns)
     reac = ["A%d" % i for i in range(1, 7)]
     prod = ["B%d" % i for i in range(1, 7)]
@@ -273,12 +396,9 @@ def _(v):
             okbig.append(repr(e))
     v.prove("large_denominator_compositions_balanced_as_given", okbig == [True, True, True], detail=repr(okbig))
     dec = {"A": Substance("A", composition={1: 0.94700001, 8: 1}), "B": Substance("B", composition={1: 1.89400002, 8: 2})}
-    try:
-        rd, pd_ = bs(["A"], ["B"], substances=dec)
-        okdec = (dict(rd), dict(pd_)) == ({"A": 2}, {"B": 1})
-    except Exception as e:
-        okdec = repr(e)
-    v.prove("eight_decimal_compositions_balanced_as_given", okdec is True, detail=repr(okdec))
+    # 2 * 0.94700001 = 1.89400002 and 2 * 1 = 2 in the decimals as written: the single ray 2 A -> B, in all three modes
+    okdec = [answer(["A"], ["B"], substances=dec, underdetermined=mode) for mode in (True, False, None)]
+    v.prove("eight_decimal_compositions_balanced_as_given", all(x == ({"A": 2}, {"B": 1}) for x in okdec), detail=repr(okdec))
     # seven decimals where rounding to fewer digits changes the answer: the decimals as written decide (the two modes without the ILP)
     seven = []
     for mode in (True, False):
@@ -321,14 +441,28 @@ def _(v):
             rhs.append(0.0)
         res = linprog([0.0] * len(syms) + [-1.0], A_ub=rows, b_ub=rhs, bounds=[(None, None)] * len(syms) + [(None, 1.0)])
         return bool(res.status == 0 and -res.fun > 1e-9)
+    # Reading: the parameters range over the positive REALS ('some assignment of positive coefficients'); chempy declares its symbols
+    # integer=True, positive=True, and e.g. H2O -> H+ + OH- + H3O+ comes back with H+: 1 - x1, positive for no positive integer x1 but for
+    # x1 = 1/2 - under an integer reading that answer would be a finding (reported to the maintainer, not stated here).
+    # has_positive_solution is decided by hand: carbonate / formic: see F-C02c; two_oxides 3 C + 2 O2 -> 2 CO + CO2; iron_oxides
+    # 3 Fe + 2 O2 -> FeO + Fe2O3; three_parameters (a 3-dimensional family, the per-symbol normalisation loops of the code do real work only
+    # from two parameters on) 3 C + 2 O2 + 3 H2 -> CO + CO2 + H2O + CH4; water_ions (2-dimensional, a charge row) 3 H2O -> H+ + 2 OH- + H3O+.
+    # A refusal (ValueError) of a placement with several rays is allowed in this mode: the statement promises an answer only for a single ray
+    # and for the smallest-integers mode (refusals of feasible placements by the parametric mode are documented behaviour, DESIGN section 9).
     for label, (rs_, ps_), has_positive_solution in (("carbonate", (["H+", "H2O", "HCO3-"], ["CO2", "OH-"]), False), ("formic", (["CH3OH", "H2CO3", "HCOOH"], ["C2H4", "H2O"]), False),
-                                                     ("two_oxides", (["C", "O2"], ["CO", "CO2"]), True), ("iron_oxides", (["Fe", "O2"], ["FeO", "Fe2O3"]), True)):
+                                                     ("two_oxides", (["C", "O2"], ["CO", "CO2"]), True), ("iron_oxides", (["Fe", "O2"], ["FeO", "Fe2O3"]), True),
+                                                     ("three_parameters", (["C", "O2", "H2"], ["CO", "CO2", "H2O", "CH4"]), True), ("water_ions", (["H2O"], ["H+", "OH-", "H3O+"]), True)):
         try:
             rr, pp = bs(rs_, ps_)
             okf, det = feasible(list(rr.values()) + list(pp.values())), "%s -> %s" % (dict(rr), dict(pp))
+            if okf and not has_positive_solution:
+                okf, det = False, "the answer %s is called feasible by the LP, by hand the placement has no positive balancing" % det
         except ValueError as e:
             rr = pp = None
-            okf, det = (not has_positive_solution), "refused: %s" % e
+            okf, det = True, "refused: %s" % e
+        except Exception as e:
+            rr = pp = None
+            okf, det = False, repr(e)
         v.prove("default_mode_answer_admits_positive_coefficients." + label, okf, detail=det)
         if rr is not None:
             # 'balanced identically in any free parameter': the signed element totals vanish as polynomials in the parameters
@@ -340,8 +474,22 @@ def _(v):
                     for el, n_el in _S.from_formula(key).composition.items():
                         tot[el] = tot.get(el, 0) + sign * sympy.sympify(coeff) * n_el
             v.prove("default_mode_answer_is_balanced_identically." + label, all(sympy.expand(x) == 0 for x in tot.values()), detail=repr({k: str(x) for k, x in tot.items() if sympy.expand(x) != 0}))
-    r, p = bs(["H3.5", "HO2Cl3.5"], ["HO2.5", "H2.5Cl"])
-    v.prove("fractional_compositions_balanced_exactly", (dict(r), dict(p)) == ({"H3.5": 171, "HO2Cl3.5": 70}, {"HO2.5": 56, "H2.5Cl": 245}))
+            v.prove("default_mode_answer_has_the_given_species." + label, set(rr) == set(rs_) and set(pp) == set(ps_) and len(rr) == len(rs_) and len(pp) == len(ps_), detail="%s -> %s" % (list(rr), list(pp)))
+    res = answer(["H3.5", "HO2Cl3.5"], ["HO2.5", "H2.5Cl"])
+    v.prove("fractional_compositions_balanced_exactly", res == ({"H3.5": 171, "HO2Cl3.5": 70}, {"HO2.5": 56, "H2.5Cl": 245}), repr(res))
+
+
+def _small_matrices():
+    """40 small signed composition matrices (rows: composition keys, columns: species, reactant columns negated) with the number of reactant
+    columns: 6 written by hand, 34 drawn with a fixed seed.  About half have a positive integer solution, null-space dimensions 1 to 4."""
+    import random
+    rng = random.Random(2)
+    mats = [([[-1, 0, 1, 1], [0, -2, 1, 2]], 2), ([[-1, 0, 1, 2], [0, -2, 1, 3]], 2), ([[-2, 0, 2], [0, -2, 1]], 2), ([[-1, -1, 2]], 2), ([[1, 1, 1]], 0), ([[-3, 0, 1], [0, -3, 2], [-1, -1, 1]], 2)]
+    while len(mats) < 40:
+        r, c = rng.choice([1, 2, 2, 3]), rng.choice([3, 4, 4, 5])
+        nreac = rng.randint(1, c - 1)
+        mats.append(([[(-1 if j < nreac else 1) * rng.choice([0, 0, 1, 1, 2, 3]) for j in range(c)] for _ in range(r)], nreac))
+    return mats
 
 
 @harness("C02", "smallest_integers_helper", functions=["chempy.chemistry:_solve_balancing_ilp_pulp"], kind="data")
@@ -353,14 +501,8 @@ def _(v):
     import random
     import sympy
     from chempy.chemistry import _solve_balancing_ilp_pulp
-    rng = random.Random(2)
     cases, bad, infeasible = 0, [], 0
-    mats = [[[-1, 0, 1, 1], [0, -2, 1, 2]], [[-1, 0, 1, 2], [0, -2, 1, 3]], [[-2, 0, 2], [0, -2, 1]], [[-1, -1, 2]], [[1, 1, 1]], [[-3, 0, 1], [0, -3, 2], [-1, -1, 1]]]
-    while len(mats) < 40:
-        r, c = rng.choice([1, 2, 2, 3]), rng.choice([3, 4, 4, 5])
-        nreac = rng.randint(1, c - 1)
-        mats.append([[(-1 if j < nreac else 1) * rng.choice([0, 0, 1, 1, 2, 3]) for j in range(c)] for _ in range(r)])
-    for rows in mats:
+    for rows, _nreac in _small_matrices():
         A = sympy.Matrix(rows)
         n = A.shape[1]
         best = None
@@ -416,7 +558,143 @@ def _(v):
         try:
             r, p = balance_stoichiometry(["R"], ["P0", "P1", "P2"], substances=s, underdetermined=None)
             got = (r["R"], p["P0"], p["P1"], p["P2"])
-            ok, det = sum(got) == sum(best) == 15 and 4 * got[0] == got[1] + got[2] + got[3] and Fr(1, 3) * got[0] == Fr(1, 2) * got[2], "%r brute force %r" % (got, best)
+            # 'a POSITIVE solution of minimal coefficient sum': without the positivity (3, 10, 2, 0) or a signed vector of sum 15 would pass.
+            # x1 / 3 = x3 / 2 forces R = 3 k, P1 = 2 k; k = 1 leaves P0 + P2 = 10 with both >= 1, sum 15 whichever way it is split: the
+            # minimum is 15 and is attained by (3, m, 2, 10 - m), m = 1..9 (brute force names one of them)
+            positive = all(not isinstance(g, bool) and int(g) == g and int(g) >= 1 for g in got)
+            ok, det = positive and sum(got) == sum(best) == 15 and 4 * got[0] == got[1] + got[2] + got[3] and Fr(1, 3) * got[0] == Fr(1, 2) * got[2], "%r brute force %r" % (got, best)
         except Exception as ex:
             ok, det = False, repr(ex)[:120]
         v.prove("minimal_sum_with_a_non_terminating_fraction." + label, ok, detail=det)
+
+
+def _rank(rows):
+    """rank by exact elimination over fractions"""
+    from fractions import Fraction as Fr
+    m, rk = [[Fr(x) for x in r] for r in rows], 0
+    for col in range(len(m[0]) if m else 0):
+        piv = next((i for i in range(rk, len(m)) if m[i][col] != 0), None)
+        if piv is None:
+            continue
+        m[rk], m[piv] = m[piv], m[rk]
+        for i in range(len(m)):
+            if i != rk and m[i][col] != 0:
+                f = m[i][col] / m[rk][col]
+                m[i] = [a - f * b for a, b in zip(m[i], m[rk])]
+        rk += 1
+    return rk
+
+
+def _has_positive_solution(rows):
+    """is there x > 0 (componentwise, real) with rows . x = 0?  LP: maximise t subject to rows . x = 0, x_j >= t, t <= 1"""
+    from scipy.optimize import linprog
+    n = len(rows[0])
+    res = linprog([0.0] * n + [-1.0], A_eq=[[float(a) for a in row] + [0.0] for row in rows], b_eq=[0.0] * len(rows),
+                  A_ub=[[-1.0 if i == j else 0.0 for i in range(n)] + [1.0] for j in range(n)], b_ub=[0.0] * n, bounds=[(None, None)] * n + [(None, 1.0)])
+    return bool(res.status == 0 and -res.fun > 1e-9)
+
+
+@harness("C02", "numeric_clauses_on_small_matrices", functions=[CH + ":balance_stoichiometry", CH + ":_solve_balancing_ilp_pulp"], kind="data")
+def _(v):
+    """The numeric clauses, stated generically for whatever balance_stoichiometry itself returns (the tail slice has them for the guards only, the
+    fixed reactions only as equality with literals): synthetic species whose compositions are the columns of small signed matrices - the 40 of
+    `smallest_integers_helper` plus hand-written ones with a charge-type row (mixed signs on one side) and with fractional / decimal entries -
+    are balanced in all three modes, and every outcome is held against an oracle that shares nothing with chempy (brute force over coefficients
+    1..8, exact rank, an LP for 'a positive solution exists'):
+      * every return: the set of keys equals the species given; without free symbols: positive integers, jointly coprime, A x = 0 exactly;
+        with free symbols (default mode): A x = 0 identically in them;
+      * null space of dimension 1 with a positive vector ('a single ray'): exactly the brute-force minimal solution, in all modes;
+      * smallest-integers mode, a positive solution exists: an answer, of the brute-force minimal coefficient sum;
+      * no positive solution: ValueError in the two numeric modes, and in the default mode when the null space has dimension <= 1;
+      * mode False / default mode on several rays: a ValueError or a valid answer; any other exception is a failure.
+    Scope: every species has at least one composition key (a matrix with a zero column is left out: species without any composition are a
+    recorded observation of the first review, not this clause)."""
+    import itertools
+    import math
+    import sympy
+    from fractions import Fraction as Fr
+    from chempy.chemistry import balance_stoichiometry, Substance
+    extra = [
+        ([[-1, -1, 2], [0, -1, 1], [-1, 1, 0]], 2),                  # H+ + OH- -> H2O with the charge row (+1, -1 | 0): 1, 1 -> 1
+        ([[-1, 0, 1], [-3, 1, 2]], 2),                               # Fe+3 + e- -> Fe+2: 1, 1 -> 1
+        ([[-1, 0, 0, 1, 0, 0], [-4, 0, 0, 0, 0, 1], [0, -1, 0, 0, 1, 0], [0, 0, -1, 0, 0, 2], [1, -2, -1, 2, 3, 0]], 3),   # MnO4- + 5 Fe+2 + 8 H+ -> Mn+2 + 5 Fe+3 + 4 H2O
+        ([[-1, 1, 0], [1, -1, 0], [0, -1, 1]], 1),                   # the last key is absent among the reactants and has mixed signs among the products (passes the pre-check): x0 = x1, x1 = x2: 1 -> 1, 1
+        ([[-Fr(1, 2), 0, 1], [0, -Fr(3, 2), 1]], 2),                 # x0 / 2 = x2, 3 x1 / 2 = x2: 6, 2 -> 3
+        ([[-0.5, 0, 1], [0, -1.5, 1]], 2),                           # the same in decimals
+        ([[-Fr(1, 3), -1, 1], [-1, 0, Fr(1, 2)]], 2),                # x0 = x2 / 2, x0 / 3 + x1 = x2: x2 = 2 x0, x1 = 5 x0 / 3: 3, 5 -> 6
+        ([[-1, 2, 1], [1, 1, -2]], 1),                               # mixed signs on both sides: -x0 + 2 x1 + x2 = 0, x0 + x1 - 2 x2 = 0; adding them x2 = 3 x1, then x0 = 5 x1: 5 -> 1, 3
+        ([[-1, 1, 1], [-1, 1, -1]], 1),                              # the difference of the rows forces x2 = 0: no positive solution although every key is on both sides (passes the pre-check)
+    ]
+    cases, seen = [], {"single_ray": 0, "several_rays": 0, "no_positive_solution": 0, "answers": 0, "symbolic_answers": 0}
+    bad = {"keys": [], "numeric": [], "identically": [], "single_ray": [], "minimal_sum": [], "refusal": [], "exception": [], "oracle": []}
+    for rows, nreac in _small_matrices() + extra:
+        n = len(rows[0])
+        if any(all(row[j] == 0 for row in rows) for j in range(n)):
+            continue
+        exact = [[Fr(repr(a)) if isinstance(a, float) else Fr(a) for a in row] for row in rows]
+        scaled = [[int(a * math.lcm(*[c.denominator for c in row])) for a in row] for row in exact]    # the same equations with integer coefficients
+        best = None
+        for x in itertools.product(range(1, 9), repeat=n):
+            if all(sum(a * b for a, b in zip(row, x)) == 0 for row in scaled):
+                if best is None or sum(x) < sum(best):
+                    best = x
+        nullity, positive = n - _rank(exact), _has_positive_solution(exact)
+        if (best is not None and not positive) or (positive and nullity == 1 and best is None):
+            bad["oracle"].append((rows, best, positive, nullity))      # the oracles disagree, or the single ray lies outside the brute-force box
+            continue
+        keys = ["S%d" % j for j in range(n)]
+        reac, prod = keys[:nreac], keys[nreac:]
+        subs = OrderedDict((k, Substance(k, composition={i + 1: rows[i][j] * (-1 if j < nreac else 1) for i in range(len(rows)) if rows[i][j] != 0})) for j, k in enumerate(keys))
+        cases.append(rows)
+        seen["single_ray" if (positive and nullity == 1) else "several_rays" if positive else "no_positive_solution"] += 1
+        for mode in (None, False, True):
+            tag = (rows, nreac, mode)
+            try:
+                r, p = balance_stoichiometry(list(reac), list(prod), substances=subs, underdetermined=mode)
+            except ValueError as e:
+                if positive and (mode is None or nullity == 1):
+                    bad["refusal"].append(tag + ("refused (%s) although %s balances" % (e, best),))
+                continue
+            except Exception as e:
+                bad["exception"].append(tag + (repr(e)[:100],))
+                continue
+            try:
+                if not (set(r) == set(reac) and set(p) == set(prod) and len(r) == len(reac) and len(p) == len(prod)):
+                    bad["keys"].append(tag + (list(r), list(p)))
+                    continue
+                x = [r[k] for k in reac] + [p[k] for k in prod]
+                symbolic = any(getattr(c, "free_symbols", None) for c in x)
+                if symbolic and mode is not True:
+                    bad["numeric"].append(tag + ("free symbols in a numeric mode: %s" % (x,),))
+                    continue
+                if symbolic:
+                    seen["symbolic_answers"] += 1
+                    resid = [sympy.expand(sum(sympy.Rational(a.numerator, a.denominator) * sympy.sympify(c) for a, c in zip(row, x))) for row in exact]
+                    if any(t != 0 for t in resid):
+                        bad["identically"].append(tag + (str(x), str(resid)))
+                    if not positive:     # (dimension >= 2 here: the parametric mode may hand back a parametrisation of an infeasible placement, F-C02c; not restated)
+                        pass
+                    continue
+                seen["answers"] += 1
+                d = _numeric_answer_defects((r, p), reac, prod, {k: {i: a for i, a in subs[k].composition.items()} for k in keys})
+                if d:
+                    bad["numeric"].append(tag + (str(x), "; ".join(d)))
+                    continue
+                x = tuple(int(c) for c in x)
+                if not positive:
+                    bad["refusal"].append(tag + ("answered %s although no positive solution exists" % (x,),))
+                elif nullity == 1 and x != best:
+                    bad["single_ray"].append(tag + (x, best))
+                elif mode is None and best is not None and sum(x) != sum(best):
+                    bad["minimal_sum"].append(tag + (x, best))
+            except Exception as e:
+                bad["exception"].append(tag + ("while checking %r -> %r: %r" % (r, p, e),))
+    v.prove("oracles_agree_and_cover_the_single_rays", not bad["oracle"], detail=repr(bad["oracle"][:3]))
+    v.prove("keys_are_the_given_species", not bad["keys"], detail=repr(bad["keys"][:3]))
+    v.prove("numeric_answers_are_positive_integers_coprime_and_balanced", not bad["numeric"], detail=repr(bad["numeric"][:3]))
+    v.prove("symbolic_answers_are_balanced_identically", not bad["identically"], detail=repr(bad["identically"][:3]))
+    v.prove("single_ray_gives_the_minimal_solution_in_all_modes", not bad["single_ray"], detail=repr(bad["single_ray"][:3]))
+    v.prove("smallest_integers_mode_has_the_minimal_coefficient_sum", not bad["minimal_sum"], detail=repr(bad["minimal_sum"][:3]))
+    v.prove("answers_exactly_when_due_else_ValueError", not bad["refusal"], detail=repr(bad["refusal"][:3]))
+    v.prove("no_exception_other_than_ValueError", not bad["exception"], detail=repr(bad["exception"][:3]))
+    v.prove("all_kinds_exercised", len(cases) >= 25 and seen["single_ray"] >= 8 and seen["several_rays"] >= 6 and seen["no_positive_solution"] >= 8 and seen["answers"] >= 3 * seen["single_ray"] + seen["several_rays"], detail="%d cases, %r" % (len(cases), seen))
